@@ -284,6 +284,18 @@ pub fn derive_input(di: &syn::DeriveInput) -> Sx {
                     list(di.generics.type_params().map(|p| st(p.ident.to_string())).collect()),
                     st(toks(&di.generics)),
                     st(wc.map(|w| toks(w)).unwrap_or_default()),
+                    tagged(
+                        "params",
+                        di.generics
+                            .params
+                            .iter()
+                            .map(|p| match p {
+                                syn::GenericParam::Type(t) => tagged("tp", vec![type_param(t)]),
+                                syn::GenericParam::Lifetime(l) => tagged("lt", vec![st(toks(l))]),
+                                syn::GenericParam::Const(c) => tagged("ct", vec![st(toks(c))]),
+                            })
+                            .collect(),
+                    ),
                 ],
             ),
             list(di.attrs.iter().map(attr).collect()),
@@ -302,6 +314,7 @@ pub fn type_param(t: &syn::TypeParam) -> Sx {
             list(t.attrs.iter().map(attr).collect()),
             list(t.bounds.iter().map(|b| st(toks(b))).collect()),
             t.default.as_ref().map(|d| st(toks(d))).unwrap_or_else(none),
+            st(toks(t)),
         ],
     )
 }
